@@ -396,11 +396,11 @@ def check_property(D, w, V, k, which, sa_orth, lam_true, tol, check_sel=True):
     if not res <= tol * scale:
         bad.append(f"residual max|A v - lambda v| = {res:.3g} (unit vectors)")
     sv = np.linalg.svd(Vn, compute_uv=False)
-    if sv.min() < 1e-6:
+    if not (sv.min() >= 1e-6):
         bad.append(f"returned vectors are linearly dependent (sigma_min={sv.min():.3g})")
     if sa_orth:
         o = float(np.abs(Vn.conj().T @ Vn - np.eye(k)).max())
-        if o > max(tol, 1e-8) * 10:
+        if not (o <= max(tol, 1e-8) * 10):
             bad.append(f"vectors of a self-adjoint operator not orthogonal ({o:.3g})")
     near = False
     if check_sel:
@@ -647,11 +647,11 @@ def run(ctx):
         lam1 = c["lam"][0]
         stopped_by_tol = iters < maxit
         if stopped_by_tol and tolv <= 1e-6:
-            if abs(e - lam1) > 1e-3 * abs(lam1):
+            if not (abs(e - lam1) <= 1e-3 * abs(lam1)):
                 bad.append(f"value {e} is not the dominant eigenvalue {lam1} (stopped by tolerance after {iters} steps)")
             vv = np.asarray(v) / np.linalg.norm(v)
             r = float(np.abs(c["M"] @ vv - e * vv).max())
-            if r > 5e-2 * abs(lam1):
+            if not (r <= 5e-2 * abs(lam1)):
                 bad.append(f"residual {r:.3g}")
         if iters > maxit:
             bad.append(f"{iters} iterations exceed max_iter={maxit}")
